@@ -31,3 +31,38 @@ Proof. apply (lower_ok false value5 n ws s (value5_ranks false)). Qed.
 Lemma attained_spec n ws :
   (5 <= n)%nat -> HandN n ws -> exists s, Subseq s ws /\ length s = 5%nat /\ Hand5 s /\ best_value5 ws = value5 s.
 Proof. apply (attained_ok value5). Qed.
+
+(* ---- slot order ------------------------------------------------------------------------------ *)
+Lemma handN_perm n ws ws' : Permutation ws ws' -> HandN n ws -> HandN n ws'.
+Proof.
+  intros HP (HL & HR & HN). repeat split.
+  - rewrite <- HL. symmetry. apply Permutation_length, HP.
+  - eapply Permutation_Forall; eauto.
+  - eapply Permutation_NoDup; eauto.
+Qed.
+
+Lemma best_value5_perm n ws ws' :
+  (5 <= n)%nat -> HandN n ws -> Permutation ws ws' -> best_value5 ws = best_value5 ws'.
+Proof.
+  intros Hn H HP. pose proof (handN_perm n ws ws' HP H) as H'.
+  pose proof H as (HL & _ & HN). pose proof H' as (HL' & _ & HN').
+  unfold best_value5. apply N.le_antisymm.
+  - apply (monotone_ok false value5 n n ws ws' (value5_ranks false) Hn H HL' HN').
+    intros x Hx. apply (Permutation_in x (Permutation_sym HP) Hx).
+  - apply (monotone_ok false value5 n n ws' ws (value5_ranks false) Hn H' HL HN).
+    intros x Hx. apply (Permutation_in x HP Hx).
+Qed.
+
+(* the same cards in any two slot orders: every entry point returns the same value *)
+Lemma slot_order_spec chk n ws ws' :
+  (n = 6 \/ n = 7)%nat -> HandN n ws -> Permutation ws ws' ->
+  hand_rank_value chk ws' = hand_rank_value chk ws /\
+  hand_rank_value_validated chk ws' = hand_rank_value_validated chk ws /\
+  rmap fst (hrvh chk ws') = rmap fst (hrvh chk ws).
+Proof.
+  intros Hn H HP. pose proof (handN_perm n ws ws' HP H) as H'.
+  destruct (value_n_spec chk n ws Hn H) as (A & _ & B & C & _).
+  destruct (value_n_spec chk n ws' Hn H') as (A' & _ & B' & C' & _).
+  cbv zeta in *.
+  rewrite A, A', B, B', C, C', (best_value5_perm n ws ws' ltac:(lia) H HP). repeat split.
+Qed.
